@@ -21,7 +21,7 @@ import (
 )
 
 var lexDef = lexer.MustSimple([]lexer.SimpleRule{
-	{Name: "Ident", Pattern: `[a-zA-Z]`},
+	{Name: "Ident", Pattern: `[a-zA-Zſ]`},
 	{Name: "Int", Pattern: `[0-9]`},
 	{Name: "Punct", Pattern: `;`},
 	{Name: "Space", Pattern: ` `},
@@ -201,7 +201,7 @@ type explorer struct {
 func standaloneTest(gr *gfam.Grammar, in string, k int, at bool, modelAccepts bool, modelAST string) string {
 	var sb strings.Builder
 	sb.WriteString("package participle_test\n\nimport (\n\t\"testing\"\n\n\t\"github.com/alecthomas/participle/v2\"\n\t\"github.com/alecthomas/participle/v2/lexer\"\n)\n\nvar _ lexer.Token\n\n")
-	sb.WriteString("var verifLexer = lexer.MustSimple([]lexer.SimpleRule{{Name: \"Ident\", Pattern: `[a-zA-Z]`}, {Name: \"Int\", Pattern: `[0-9]`}, {Name: \"Punct\", Pattern: `;`}, {Name: \"Space\", Pattern: ` `}, {Name: \"Comment\", Pattern: `#`}, {Name: \"NL\", Pattern: `\\n`}})\n\n")
+	sb.WriteString("var verifLexer = lexer.MustSimple([]lexer.SimpleRule{{Name: \"Ident\", Pattern: `[a-zA-Zſ]`}, {Name: \"Int\", Pattern: `[0-9]`}, {Name: \"Punct\", Pattern: `;`}, {Name: \"Space\", Pattern: ` `}, {Name: \"Comment\", Pattern: `#`}, {Name: \"NL\", Pattern: `\\n`}})\n\n")
 	decls := gr.Root.GoDecls()
 	sb.WriteString(decls)
 	fmt.Fprintf(&sb, "func TestVerifReplay(t *testing.T) {\n\topts := []participle.Option{participle.Lexer(verifLexer), participle.UseLookahead(%d)", k)
@@ -496,7 +496,7 @@ func runSharedOptions(w *hx.Worker) {
 		for i := 0; i < fill; i++ {
 			rules = append(rules, lexer.SimpleRule{Name: fmt.Sprintf("F%d", i), Pattern: fmt.Sprintf("@f%d@", i)})
 		}
-		rules = append(rules, lexer.SimpleRule{Name: "Ident", Pattern: `[a-zA-Z]`}, lexer.SimpleRule{Name: "Int", Pattern: `[0-9]`}, lexer.SimpleRule{Name: "Punct", Pattern: `;`},
+		rules = append(rules, lexer.SimpleRule{Name: "Ident", Pattern: `[a-zA-Zſ]`}, lexer.SimpleRule{Name: "Int", Pattern: `[0-9]`}, lexer.SimpleRule{Name: "Punct", Pattern: `;`},
 			lexer.SimpleRule{Name: "Space", Pattern: ` `}, lexer.SimpleRule{Name: "Comment", Pattern: `#`}, lexer.SimpleRule{Name: "NL", Pattern: `\n`})
 		wide, err := lexer.NewSimple(rules)
 		if err != nil {
